@@ -188,6 +188,16 @@ impl World {
                 let mut m = self.m.borrow_mut();
                 m.buf_model.remove(&o);
                 m.objs[o as usize].status = Status::Unwrapped;
+                m.free_paths.insert(2);
+                if let ObjKind::Leaf(l) = m.objs[o as usize].kind {
+                    m.leaf_layouts_freed.insert(l);
+                }
+                {
+                    let ob = &m.objs[o as usize];
+                    if ob.was_buffered || ob.fin_flag || ob.via_cyclic || ob.side_addr != 0 {
+                        self.stats.borrow_mut().bump("try_unwrap_ok_interesting");
+                    }
+                }
                 m.bag_obj.push(Some(o));
                 drop(m);
                 self.t.borrow_mut().bag.push(Some(v));
